@@ -662,9 +662,9 @@ fn nodes_case(c: &NodesCase, obs: &mut Obs) -> Result<(), Failure> {
 pub fn c08_parts(ctx: &mut Ctx) {
     use iceoryx2::service::{ipc, local};
     let steps = ctx.scale(60, 120);
-    ctx.proptest("lim.event.local", ctx.scale(6_000u64, 150_000), ev_strategy(steps), |c, obs| ev_run::<local::Service>(c, obs));
+    ctx.proptest("lim.event.local", ctx.scale(3_000u64, 150_000), ev_strategy(steps), |c, obs| ev_run::<local::Service>(c, obs));
     ctx.proptest("lim.event.ipc", ctx.scale(1_500u64, 40_000), ev_strategy(steps), |c, obs| ev_run::<ipc::Service>(c, obs));
-    ctx.proptest("lim.blackboard.local", ctx.scale(4_000u64, 100_000), bb_strategy(steps), |c, obs| bb_run::<local::Service>(c, obs));
+    ctx.proptest("lim.blackboard.local", ctx.scale(2_000u64, 100_000), bb_strategy(steps), |c, obs| bb_run::<local::Service>(c, obs));
     ctx.proptest("lim.blackboard.ipc", ctx.scale(1_000u64, 25_000), bb_strategy(steps), |c, obs| bb_run::<ipc::Service>(c, obs));
     let mut cases = vec![];
     for pattern in 0..4u8 {
